@@ -41,30 +41,3 @@ Qed.
 Lemma continue_costs_no_frame h cur rest D c more :
   get h cur = Some D -> paused D = 0%Z -> cbs D = Cont c :: more -> step_calls h (cur :: rest) = 0.
 Proof. intros HD HP HC. unfold step_calls. rewrite HD, HP, HC. reflexivity. Qed.
-
-(** bounded checks by computation: every chain family, both outcomes, every length 0..40:
-    the chain completes with the right results, every operation stays within depth 4,
-    while the explicit list (and the recursive interpreter's nesting) grows with the length *)
-Definition lengths := seq 0 41.
-
-Definition family_ok (mk : bool -> nat -> program) : bool :=
-  forallb (fun n => forallb (fun fail =>
-     chain_done fail (mk fail n) && forallb (fun k => Nat.leb k 4) (program_depths true (mk fail n)))
-     [false; true]) lengths.
-
-Lemma families_complete_bounded :
-  family_ok chain_outer = true /\ family_ok chain_inner = true /\ family_ok chain_prefired = true.
-Proof. vm_compute. repeat split; reflexivity. Qed.
-
-(** the state just before the innermost Deferred of an outer-first chain of length n fires *)
-Definition before_last (n : nat) : heap :=
-  let p := chain_outer false n in
-  let s := fst (run true (init (fst p)) (removelast (snd p))) in
-  upd (heap_of s) n (fun D => set_res (Some (VInt 1)) (set_called true D)).
-
-Lemma stack_grows_frames_do_not :
-  forallb (fun n => Nat.eqb (iter_stack true (measure (before_last n) [n]) (before_last n) [n]) (S n)
-                    && Nat.leb (loop_depth true (before_last n) n) 1
-                    && match srun (4 * n + 8) (before_last n) n 0 with Some (_, m) => Nat.eqb m n | None => false end)
-          (seq 1 30) = true.
-Proof. vm_compute. reflexivity. Qed.
